@@ -240,9 +240,13 @@ class XsdGlobals(XsdValidator, Collection[SchemaType]):
         other.loader.missing_locations.update(self.loader.missing_locations)
 
         other.validator.maps = other
-        for schema in self._schemas:
-            if schema.maps is self and schema is not self.validator:
-                copy.copy(schema).maps = other
+
+        # Register the copies in the same order of the originals, that has to
+        # be respected for redefinitions/overrides (a set has no stable order)
+        for schemas in self.namespaces.values():
+            for schema in schemas:
+                if schema.maps is self and schema is not self.validator:
+                    copy.copy(schema).maps = other
 
         other.clear()
         return other
